@@ -360,6 +360,16 @@ class World(object):
         return self.command('rerun_workflow', task_ex_id, reset=reset,
                             skip=skip, env=env)
 
+    def service_unit(self, label, fn, ctx=None, forced=True):
+        """A periodic service pass (heartbeat checker, expiration policy,
+        cron processing) as a unit of its own, under the service's context."""
+        from mistral import context as auth_context
+
+        def run():
+            auth_context.set_ctx(ctx)
+            return fn()
+        return self.coop.spawn('svc', 'svc:' + label, run, forced=forced)
+
     def engine_cast(self, method, _ctx=None, **kwargs):
         """Harness-originated cast to the engine (e.g. an async result)."""
         cl = transport.HarnessRPCClient(CONF.engine)
